@@ -8,15 +8,20 @@ sys.path only inside this process), which implements the documented Optimizer-AP
 solves the recorded problem with cvxpy+SCS in MOSEK's sign convention (assumptions A1-A3 in its docstring).
 
 Streams
+ (r) `regressions`: the triggers of the former findings F-C11a/b/c (repaired in /repo by 067bbb4, 54e4665, 88e1f86):
+     each is sent (scripted solve, call log vs. model) AND really solved on both paths; any failure is a VIOLATION.
  (a) `call-log`: seeded random models (1-2 functions of 15 classes, user constraints, LMIs of size 1-3 owned by the
-     problem / a function / nobody in various creation orders, class LMIs, 1-2 metrics) are sent through the real
-     `PEP.solve(wrapper="mosek")`; the recorded call log (up to and including a call that raises) must equal
-     Model.Mosek.emit_session applied to the sent list, which is recorded independently by a recording Wrapper
-     on a second build of the same program.  Solves are scripted (distinct numbers for xx, zeros elsewhere).
+     problem / a function / nobody in various creation orders, class LMIs, auto-created stationary points, > 128 rows,
+     1-2 metrics) are sent through the real `PEP.solve(wrapper="mosek")`; the recorded call log (up to and including
+     a call that raises) must equal Model.Mosek.emit_session applied to the sent list, which is recorded
+     independently by a recording Wrapper on a second build of the same program.  Solves are scripted (distinct
+     numbers for xx, a dense dyadic PSD matrix for barx, zeros elsewhere).
  (b) `end-to-end`: curated bounded models solved with wrapper="cvxpy" (SCS) and wrapper="mosek" (stand-in, SCS):
      value, eval_dual() of every constraint, residual, Gram matrix of the leaf points; both certificates checked.
- (c) `heuristics`: "trace" / "logdetN" on both paths: call logs vs. model (scripted solves) and two real solves.
-Known findings F-C11a-d are identified by their specific trigger (see known_findings.d/C11.json)."""
+ (c) `heuristic-log` / `heuristic-solves`: "trace" / "logdetN" on both paths: call logs vs. model (scripted solves; the
+     logdet weights are RECOMPUTED by the harness from the logged Gram matrices with pep.py's own formula and must be
+     emitted entry by entry) and real solves.
+The only open finding is F-C11d (getprosta ignored), identified by its specific trigger (known_findings.d/C11.json)."""
 import json
 import os
 import random
@@ -38,8 +43,8 @@ TRUSTED = [
     "send_lmi_constraint, generate_problem, solve, _recover_dual_values, prepare_heuristic, heuristic), tied by the "
     "call-log stream (exact comparison of every argument)",
     "Model/Matrices.v (package C05) for expression_to_sparse_matrices; Proofs/C05Lemmas.sparse_correct for its Gram reading",
-    "numpy: `int + np.zeros(shape, dtype=np.int8)` raises OverflowError for int >= 128 (numpy >= 2, NEP 50); checked at "
-    "every run against the installed numpy",
+    "numpy: `int + np.zeros(shape, dtype=np.int32)` raises OverflowError for int >= 2^31 and for no smaller int (numpy >= 2, "
+    "NEP 50); checked at every run against the installed numpy",
     "cvxpy + SCS inside the stand-in's optimize and on the cvxpy path (end-to-end stream only)",
 ]
 ASSUMES = [
@@ -53,8 +58,8 @@ ASSUMES = [
 ]
 
 IMPORTS = ["From PV Require Import Model.Sent Model.Matrices Model.Mosek."]
-RUN = "fun '(l, pc, ec, obj, ctrs, heur) => dump_session l pc ec obj ctrs heur"
-INPUT_TYPE = "(sent * nat * nat * nat * list nat * option (Q * list (list triple)))"
+RUN = "fun '(l, pc, ec, obj, heur) => dump_session l pc ec obj heur"
+INPUT_TYPE = "(sent * nat * nat * nat * option (Q * list (list triple)))"
 
 CLASSES = ["ConvexFunction", "SmoothConvexFunction", "SmoothStronglyConvexFunction", "StronglyConvexFunction",
            "ConvexQGFunction", "RsiEbFunction", "ConvexLipschitzFunction", "SmoothFunction", "LipschitzOperator",
@@ -205,24 +210,22 @@ def gen_spec(rng, force=None):
             pool = sorted(AUTO_STATIONARY)
         elif force == "a-class-lmi":
             pool = sorted(CLASS_LMI)
-        elif force is None and rng.random() < 0.75:
+        elif force is None and rng.random() < 0.5:
             pool = [c for c in CLASSES if c not in CLASS_LMI and c not in AUTO_STATIONARY]
         cls = rng.choice(pool)
         params = CL.draw_params(rng, cls)
         stationary = rng.random() < 0.6
         if force == "b":
             stationary = False
-        elif cls in AUTO_STATIONARY and force is None:
-            stationary = True            # declared by the user: no leaf is created at solve time
         funcs.append(dict(cls=cls, params=params, stationary=stationary))
     spec = dict(funcs=funcs, steps=rng.choice([0, 1, 1, 2]), gamma=rng.choice([0.5, 1, 0.25, 1.0]), ops=[], metrics=[])
     ops = []
     for _ in range(rng.randint(0, 2)):
         ops.append(["leaf"])
     has_class_lmi = any(f["cls"] in CLASS_LMI for f in funcs)
-    # LMIs: creation order == send order unless forced otherwise
+    # LMIs: any creation order (problem-level, function-level, never added), with or without class LMIs
     n_pep = rng.choice([0, 0, 1, 1, 2])
-    n_fun = rng.choice([0, 0, 0, 1]) if not has_class_lmi else 0
+    n_fun = rng.choice([0, 0, 0, 1, 1])
     lm = [["lmi", "pep", _rand_lmi(rng)] for _ in range(n_pep)]
     # function-level LMIs are sent grouped by function, functions in declaration order
     lf = sorted([["lmi", "f%d" % rng.randrange(nf), _rand_lmi(rng)] for _ in range(n_fun)], key=lambda o: o[1])
@@ -233,6 +236,13 @@ def gen_spec(rng, force=None):
         lm = [["lmi", "unused", _rand_lmi(rng)], ["lmi", "pep", _rand_lmi(rng)]]
     elif force == "a-class-lmi":
         lf = [["lmi", "f0", _rand_lmi(rng)]]
+    if force is None:
+        if rng.random() < 0.2:
+            lm.append(["lmi", "unused", _rand_lmi(rng)])
+        lm = lm + lf
+        lf = []
+        if rng.random() < 0.5:
+            rng.shuffle(lm)
     ops += lm + lf
     ncons = rng.randint(0, 4)
     cons = []
@@ -318,12 +328,14 @@ def sent_of(items):
     return out
 
 
-def record_sent(spec):
-    """build the program and let the real PEP._solve_with_wrapper send it to a recording wrapper"""
+def record_sent(spec, nsolve=1):
+    """build the program and let the real PEP._solve_with_wrapper send it to a recording wrapper (the last of
+    `nsolve` sends is kept: class constraints and the objective leaf are re-created at every solve)"""
     p, funcs = build(spec)
-    rec = make_recorder()
-    with moseklib.quiet():
-        p._solve_with_wrapper(rec, verbose=0)
+    for _ in range(nsolve):
+        rec = make_recorder()
+        with moseklib.quiet():
+            p._solve_with_wrapper(rec, verbose=0)
     return dict(sent=sent_of(rec.items), pc=rec.pc, ec=rec.ec, obj=rec.objective.counter)
 
 
@@ -355,13 +367,12 @@ def coq_triples(tr):
 
 
 def coq_case(rec, heur):
-    ctrs = [it[2] for it in rec["sent"] if it[0] == "LMI"]
     if heur is None:
         h = "None"
     else:
         h = "Some (%s, %s)" % (coq_q(heur[0]), coq_list([coq_triples(w) for w in heur[1]]))
-    return "(%s, %s, %s, %s, %s, %s)" % (coq_sent(rec["sent"]), coq_nat(rec["pc"]), coq_nat(rec["ec"]),
-                                         coq_nat(rec["obj"]), coq_list([coq_nat(c) for c in ctrs]), h)
+    return "(%s, %s, %s, %s, %s)" % (coq_sent(rec["sent"]), coq_nat(rec["pc"]), coq_nat(rec["ec"]),
+                                     coq_nat(rec["obj"]), h)
 
 
 # ------------------------------------------------------------------------------------------ the call log
@@ -443,66 +454,68 @@ def run_mosek(spec, heuristic=None, scripted=True, nsolve=1, tol=None):
     return res
 
 
-def heur_input(calls, heuristic, tol, pc):
-    """(v, Ws) of the model's heuristic argument: v = wc_value - tol with wc_value = xx[-2] of the first solve as the
-    wrapper read it; weights: identity for "trace" (the model's own), the logged matrices for logdet (solver floats)"""
-    if not heuristic:
-        return None
-    xx = [ret for name, a, ret in calls if name == "getxx"]
-    if not xx:
-        return None
-    v = to_fraction(xx[0][-2] - tol)
+def _fill(tril, n):
+    G = np.zeros((n, n))
+    k = 0
+    for j in range(n):
+        for i in range(j, n):
+            G[i, j] = G[j, i] = tril[k]
+            k += 1
+    return G
+
+
+def heur_weights(calls, heuristic, pc, eig_regularization=1e-3):
+    """the weights of the heuristic rounds, computed WITHOUT looking at what the wrapper sent: identity for "trace";
+    for "logdetN" round r uses pep.py's own formula inv(corrected_G + eig_regularization * I) on the Gram matrix
+    returned by the r-th optimize (the logged getbarxj); entries = the non-zero lower-triangular ones, row-major"""
+    from PEPit import PEP
     if heuristic == "trace":
-        Ws = [[(i, i, Fraction(1)) for i in range(pc)]]
-    else:
-        Ws = []
-        seen_first_opt = False
-        for name, a, ret in calls:
-            if name == "optimize":
-                seen_first_opt = True
-            if seen_first_opt and name == "appendsparsesymmat" and a[0] == pc and ret != "raised":
-                Ws.append([(i, j, to_fraction(w)) for i, j, w in zip(a[1], a[2], a[3])])
-        Ws = Ws[1:] if len(Ws) > int(heuristic[6:]) else Ws       # the first one is the prepare_heuristic row's matrix
-    return (v, Ws)
+        return [[(i, i, Fraction(1)) for i in range(pc)]]
+    grams = [ret for name, a, ret in calls if name == "getbarxj" and a[1] == 0 and ret is not None]
+    Ws = []
+    for r in range(int(heuristic[6:])):
+        if r >= len(grams):
+            break
+        G = _fill(grams[r], pc)
+        _, _, corrected = PEP.get_nb_eigenvalues_and_corrected_matrix(G)
+        Wm = np.linalg.inv(corrected + eig_regularization * np.eye(pc))
+        idx = np.argwhere(np.tril(Wm))
+        Ws.append([(int(i), int(j), to_fraction(Wm[i, j])) for i, j in idx])
+    return Ws
 
 
 def expectations(rec):
-    """the guard, evaluated on the implementation's own objects"""
+    """the guard, evaluated on the implementation's own objects (rows <= 2^31 always holds here)"""
     ctrs = [it[2] for it in rec["sent"] if it[0] == "LMI"]
     rows = sum(1 if it[0] == "SC" else sum(len(r) for r in it[1]) for it in rec["sent"])
-    in_order = ctrs == list(range(len(ctrs)))
-    return dict(ctrs=ctrs, rows=rows, in_order=in_order, fits=rows <= 128, last_leaf=rec["obj"] == rec["ec"] - 1,
-                guard=in_order and rows <= 128 and rec["obj"] < rec["ec"])
+    return dict(ctrs=ctrs, rows=rows, in_order=ctrs == list(range(len(ctrs))), last_leaf=rec["obj"] == rec["ec"] - 1,
+                guard=rec["obj"] < rec["ec"] and rows <= 2 ** 31)
 
 
-def one_case(spec, heuristic=None, tol=0.25):
+def one_case(spec, heuristic=None, tol=0.25, nsolve=1):
     """returns (coq_input, expected_dump, problems, info)"""
-    rec = record_sent(spec)
+    rec = record_sent(spec, nsolve)
     exp = expectations(rec)
-    res = run_mosek(spec, heuristic=heuristic, scripted=True, tol=tol)
+    res = run_mosek(spec, heuristic=heuristic, scripted=True, tol=tol, nsolve=nsolve)
     raised = res["raised"]
     api_error = raised is not None and raised[0] in ("mosek.Error", "OverflowError")
     log = dump_log(res["calls"], overflow=(raised is not None and raised[0] == "OverflowError"))
-    heur = heur_input(res["calls"], heuristic, tol, rec["pc"])
-    if heuristic and heur is None:
-        heur = (Fraction(0), [])            # never reached the first read: the model stops before, too
-    expected = [log, not api_error, exp["guard"], exp["last_leaf"]]
+    heur = None
+    if heuristic:
+        xx = [ret for name, a, ret in res["calls"] if name == "getxx"]
+        if xx:
+            # the objective's value as the PEP sees it: leaf expression number rec["obj"]
+            heur = (to_fraction(xx[0][rec["obj"]] - tol), heur_weights(res["calls"], heuristic, rec["pc"]))
+        else:
+            heur = (Fraction(0), [])            # never reached the first read: the model stops before, too
+    expected = [log, not api_error, exp["guard"]]
     problems = []
-    base = dict(spec=spec, heuristic=heuristic, tol=tol, raised=list(raised) if raised else None,
+    base = dict(spec=spec, heuristic=heuristic, tol=tol, nsolve=nsolve, raised=list(raised) if raised else None,
                 psd_counters=exp["ctrs"], rows=exp["rows"], objective_counter=rec["obj"], expression_counter=rec["ec"])
     if res["wrapper_name"] != "mosek":
         problems.append(dict(kind="mosek-wrapper-not-reached", **base))
     if raised:
-        if raised[0] == "mosek.Error" and not exp["in_order"]:
-            problems.append(dict(kind="psd-counter-not-send-order", **base))
-        elif raised[0] == "OverflowError" and not exp["fits"]:
-            problems.append(dict(kind="int8-row-index-overflow", **base))
-        elif raised[0] == "AssertionError" and not exp["last_leaf"]:
-            problems.append(dict(kind="objective-not-last-leaf", **base))
-        else:
-            problems.append(dict(kind="mosek-path-raised", **base))
-    elif not (exp["guard"] and exp["last_leaf"]):
-        problems.append(dict(kind="guard-false-but-no-failure", **base))
+        problems.append(dict(kind="mosek-path-raised", **base))
     return coq_case(rec, heur), expected, problems, dict(exp=exp, raised=raised, nlog=len(log), rec=rec)
 
 
@@ -524,6 +537,12 @@ def stream_logs(name, tier, seed, specs, heuristics, rule):
         hist["raised"][r] = hist["raised"].get(r, 0) + 1
         hist["rows"].append(info["exp"]["rows"])
         hist["lmis"].append(len(info["exp"]["ctrs"]))
+        for key in ("in_order", "last_leaf"):
+            if not info["exp"][key]:
+                hist.setdefault("not_" + key, 0)
+                hist["not_" + key] += 1
+        if info["exp"]["rows"] > 128:
+            hist["more_than_128_rows"] = hist.get("more_than_128_rows", 0) + 1
         hist["heuristics"][str(heur)] = hist["heuristics"].get(str(heur), 0) + 1
         for f in spec["funcs"]:
             hist["classes"][f["cls"]] = hist["classes"].get(f["cls"], 0) + 1
@@ -676,7 +695,7 @@ def primal_violation(p):
     return worst
 
 
-def solve_both(spec, heuristic=None, tol=1e-4):
+def solve_both(spec, heuristic=None, tol=1e-4, nsolve=1):
     """the same program on both paths; returns per-path observations"""
     M = mosek()
     out = {}
@@ -688,8 +707,10 @@ def solve_both(spec, heuristic=None, tol=1e-4):
             kw.update(dimension_reduction_heuristic=heuristic, tol_dimension_reduction=tol)
         obs = dict(raised=None)
         try:
-            with moseklib.quiet():
-                obs["value"] = p.solve(wrapper=w, verbose=0, **kw)
+            for _ in range(nsolve):
+                M.reset()
+                with moseklib.quiet():
+                    obs["value"] = p.solve(wrapper=w, verbose=0, **kw)
             obs["wrapper"] = p.wrapper_name
             if obs["value"] is not None:
                 obs["duals"] = [float(c.eval_dual()) for c in p._list_of_constraints_sent_to_wrapper]
@@ -811,14 +832,87 @@ def stream_heuristic_solves(tier, seed):
 
 def check_numpy():
     try:
-        200 + np.zeros(1, dtype=np.int8)
-        return "no OverflowError"
+        (2 ** 31 - 1) + np.zeros(1, dtype=np.int32)
+    except OverflowError:
+        return "OverflowError below 2^31"
+    try:
+        2 ** 31 + np.zeros(1, dtype=np.int32)
+        return "no OverflowError at 2^31"
     except OverflowError:
         return None
 
 
+# ------------------------------------------------------------------------------------------ regressions
+def regression_cases():
+    """the triggers of the repaired findings F-C11a/b/c: (name, spec, heuristic, nsolve)"""
+    P0 = [[1, 0], [-1, 1]]
+    init = ["cons", "pep", ["sq", P0], "<=", ["const", 1]]
+    ssc = dict(cls="SmoothStronglyConvexFunction", params=dict(mu=0.5, L=1.0), stationary=True)   # dyadic: exact logs
+    lmi_x1 = [[["sq", [[1, 3], [-1, 1]]], ["x", 3]], [["x", 3], ["const", 1]]]
+    a1 = dict(funcs=[ssc], steps=1, gamma=1.0,
+              ops=[["leaf"], ["leaf"], init, ["lmi", "f0", [[["sq", P0], ["x", 4]], [["x", 4], ["const", 1]]]],
+                   ["lmi", "pep", lmi_x1], ["cons", "f0", ["x", 4], "<=", ["const", 2]]],
+              metrics=[["lin", [[1, ["x", 3]], [0.5, ["x", 4]]]]])
+    a2 = dict(funcs=[ssc], steps=1, gamma=1.0,
+              ops=[["leaf"], init, ["lmi", "unused", [[["sq", P0], ["x", 3]], [["x", 3], ["const", 1]]]],
+                   ["lmi", "pep", lmi_x1]], metrics=[["x", 3]])
+    a3 = dict(funcs=[dict(cls="SymmetricLinearOperator", params=dict(mu=0.0, L=1.0), stationary=False)],
+              steps=0, gamma=1.0, ops=[["cons", "pep", ["sq", [[1, 0]]], "<=", ["const", 1]]], metrics=[["sq", [[1, 1]]]])
+    b1 = dict(funcs=[dict(cls="ConvexQGFunction", params=dict(L=1.0), stationary=False)], steps=1, gamma=0.5,
+              ops=[["cons", "pep", ["sq", [[1, 1]]], "<=", ["const", 1]], ["cons", "pep", ["sq", [[1, 3]]], "<=", ["const", 1]],
+                   ["cons", "pep", ["sq", [[1, 0]]], "<=", ["const", 4]]],
+              metrics=[["lin", [[1, ["x", 0]], [-1, ["x", 1]]]]])        # f(x0) - f(x1) <= gamma |g0|^2: attained
+    b2 = dict(funcs=[dict(cls="RsiEbFunction", params=dict(mu=0.5, L=1.0), stationary=False)], steps=0, gamma=1.0,
+              ops=[["cons", "pep", ["sq", [[1, 1]]], "<=", ["const", 1]]], metrics=[["sq", [[1, 1]]]])
+    c1 = dict(funcs=[dict(cls="SmoothConvexFunction", params=dict(L=1.0), stationary=True)], steps=10, gamma=1.0,
+              ops=[init], metrics=[["lin", [[1, ["x", 11]], [-1, ["x", 0]]]]])
+    return [("F-C11a function-level LMI created before a problem-level one", a1, None, 1),
+            ("F-C11a unused PSDMatrix created before the LMI", a2, None, 1),
+            ("F-C11a second solve with a SymmetricLinearOperator (class LMI re-created)", a3, None, 2),
+            ("F-C11b ConvexQGFunction without declared stationary point", b1, None, 1),
+            ("F-C11b ConvexQGFunction without declared stationary point, trace heuristic", b1, "trace", 1),
+            ("F-C11b RsiEbFunction without declared stationary point", b2, None, 1),
+            ("F-C11b RsiEbFunction without declared stationary point, logdet1 heuristic", b2, "logdet1", 1),
+            ("F-C11c 10 gradient steps: 135 rows", c1, None, 1)]
+
+
+def stream_regressions(tier, seed):
+    cases, metas, problems, samples = [], [], [], []
+    for name, spec, heur, nsolve in regression_cases():
+        # (i) the call log against the model (scripted solve)
+        try:
+            inp, expected, probs, info = one_case(spec, heur, nsolve=nsolve)
+            cases.append((inp, expected))
+            metas.append((name, spec, heur, nsolve, expected, info))
+            problems += [dict(pr, regression=name) for pr in probs]
+        except Exception:
+            problems.append(dict(kind="harness-crashed", regression=name, spec=spec, heuristic=heur, nsolve=nsolve,
+                                 error=traceback.format_exc()[-1500:]))
+        # (ii) really solved on both paths
+        obs = solve_both(spec, heuristic=heur, nsolve=nsolve)
+        probs, stats = compare_paths(spec, obs, heur)
+        problems += [dict(pr, regression=name, nsolve=nsolve) for pr in probs]
+        samples.append(dict(regression=name, cvxpy_value=obs["cvxpy"].get("value"), mosek_value=obs["mosek"].get("value"),
+                            stats=stats))
+    bad = run_cases("c11_regress", IMPORTS, RUN, cases, shard=4, input_type=INPUT_TYPE)
+    mism = []
+    for i in bad:
+        name, spec, heur, nsolve, expected, info = metas[i]
+        pr = dict(kind="model-differs", regression=name, spec=spec, heuristic=heur, nsolve=nsolve,
+                  implementation_tail=jsonable(expected)[0][-6:], flags=expected[1:])
+        problems.append(pr)
+        mism.append(dict(pr, model=model_output(IMPORTS, RUN, cases[i][0])[-2000:]))
+    return dict(name="regressions", evaluations=2 * len(regression_cases()), distinct_nontrivial=len(regression_cases()),
+                rule="the former triggers of F-C11a (3), F-C11b (3, one with the trace heuristic), F-C11c (1): call log vs. "
+                     "model and real solves on both paths; all non-trivial",
+                samples=samples[:2], n_mismatch=len(bad), mismatches=mism[:3], problems=problems, n_problems=len(problems),
+                distribution=dict(cases=[s["regression"] for s in samples],
+                                  value_diff_max=max([s["stats"].get("value_diff", 0.0) for s in samples] + [0.0])))
+
+
 def correspondence(tier, seed, corpus=()):
     mosek()
+    r = stream_regressions(tier, seed)
     rng = random.Random(seed * 7919 + 11)
     n = 110 if tier == "quick" else 900
     specs = [c["spec"] for c in corpus if "spec" in c] + gen_specs(rng, n)
@@ -838,29 +932,15 @@ def correspondence(tier, seed, corpus=()):
     bad = check_numpy()
     if bad:
         a["problems"].append(dict(kind="numpy-int8-semantics-changed", detail=bad))
-    return [a, c, b, d]
+    return [r, a, c, b, d]
 
 
 # ------------------------------------------------------------------------------------------ known findings
-KINDS = {
-    "psd-counter-not-send-order": "F-C11a",
-    "objective-not-last-leaf": "F-C11b",
-    "int8-row-index-overflow": "F-C11c",
-    "status-ignored": "F-C11d",
-}
+KINDS = {"status-ignored": "F-C11d"}
 
 
 def _confirms(kind, payload):
     """the payload shows the SPECIFIC trigger of the finding of that kind"""
-    if kind == "psd-counter-not-send-order":
-        c = payload.get("psd_counters")
-        return bool(c) and c != list(range(len(c))) and (payload.get("raised") or [""])[0] == "mosek.Error"
-    if kind == "objective-not-last-leaf":
-        return payload.get("objective_counter") is not None and \
-            payload["objective_counter"] != payload["expression_counter"] - 1 and \
-            any(f["cls"] in AUTO_STATIONARY and not f.get("stationary") for f in payload["spec"]["funcs"])
-    if kind == "int8-row-index-overflow":
-        return payload.get("rows", 0) > 128 and (payload.get("raised") or [""])[0] == "OverflowError"
     if kind == "status-ignored":
         return payload.get("cvxpy_value") is None and payload.get("mosek_value") is not None
     return False
@@ -876,40 +956,8 @@ def is_known(payload, known):
 def _replay_trigger(trig):
     """re-run a finding's trigger on the implementation: the payload observed now (or None if all is well)"""
     spec = trig["spec"]
-    if trig["kind"] == "status-ignored":
-        obs = solve_both(spec)
-        probs, _ = compare_paths(spec, obs)
-        return probs[0] if probs else None
-    if trig["kind"] == "objective-not-last-leaf":
-        # a real solve: the wrong leaf's value is returned / asserted against
-        rec = record_sent(spec)
-        exp = expectations(rec)
-        res = run_mosek(spec, scripted=False)
-        if res["raised"] and res["raised"][0] == "AssertionError":
-            return dict(kind="objective-not-last-leaf", spec=spec, raised=list(res["raised"]) if res["raised"] else None,
-                        objective_counter=rec["obj"], expression_counter=rec["ec"], psd_counters=exp["ctrs"], rows=exp["rows"])
-        return None
-    nsolve = trig.get("nsolve", 1)
-    if nsolve > 1:
-        # second solve of the same PEP object: class LMIs are re-created with fresh counters
-        M = mosek()
-        p, funcs = build(spec)
-        M.SCRIPTED[0] = True
-        raised = None
-        try:
-            for s in range(nsolve):
-                M.reset()
-                with moseklib.quiet():
-                    p.solve(wrapper="mosek", verbose=0)
-        except M.Error as e:
-            raised = ["mosek.Error", e.errno, str(e)]
-        finally:
-            M.SCRIPTED[0] = False
-        ctrs = [m.counter for m in p.wrapper._list_of_constraints_sent_to_solver if type(m).__name__ == "PSDMatrix"]
-        if raised:
-            return dict(kind="psd-counter-not-send-order", spec=spec, raised=raised, psd_counters=ctrs, nsolve=nsolve)
-        return None
-    _, _, probs, _ = one_case(spec)
+    obs = solve_both(spec)
+    probs, _ = compare_paths(spec, obs)
     return probs[0] if probs else None
 
 
